@@ -79,6 +79,11 @@ CHECKS = {
             "Seeded search over (plugins) simulated traffic where half of the messages are shaped to hit the decoders (FIBEX non-verbose frames incl. unknown ids and short payloads, SOME/IP and CAN traces with known/unknown ids and truncated headers, Muniic MMSG/MDLT, rewrite targets) x every non-empty subset and order of {non-verbose, SOME/IP, CAN, Muniic, rewrite, file transfer with keepFLDA} configured from the repository's descriptions x schedules/capacities: length, order, index, reception time, ECU, payload bytes, lifecycle, counter untouched; only text, a missing extended header and (rewrite) the timestamp may change; (anon) id populations of 1-999 ECUs/APIDs/CTIDs: pseudonym maps functional and injective per scope, times untouched, lifecycle partition/starts/ends/counts identical on both traces. Sampling, not proof.",
             "Plugins configured from /repo/tests; export plugin and file-transfer package dropping are the stated exceptions and not part of the set.",
             "DESIGN.md §6 C19"),
+    "C03": ("worldsim", "exploration",
+            "deterministic simulation with stored-data fault injection: simulated traces / grammar text / example files under field-targeted and blind corruption through the whole ingestion+analysis chain in crash-isolated workers with an accounting allocator",
+            "Seeded search over input images: 70 % simulated multi-ECU/multi-boot DLT traces with every message kind (structured control responses of all known services truncated at every length, file-transfer announcements with extreme sizes, plugin-shaped traces, arbitrary type-info words) under 0-3 field-targeted corruptions located by ground truth, 20 % grammar-generated ASC/logcat/generic-log lines, 10 % repository example files, plus blind flips/truncation/splices; read under scripted short reads and pushed through iterate -> text -> re-serialise -> statistics -> lifecycles -> listing -> sort -> filters -> all built-in plugins. Violations: panic (overflow checks on), abort/signal of the worker process, step-bound overrun, single allocation > max(64 x input + 16 MiB) not among the implementation's constant reservations. Sampling, not proof.",
+            "Only crashes count; BLF is not part of the statement; constant reservations (10 M message queue, 1 Mi heap) are learned per worker on a benign input and whitelisted by exact size.",
+            "DESIGN.md §6 C03"),
 }
 
 NOT_APPLICABLE = {
